@@ -123,6 +123,39 @@ def check_case(acc, sch, w, mod, tname, tags, mode, v, endian, prev=None):
     if len(acc.p['samples']) < 3 and C.nontrivial(spans, stiff):
         acc.sample({'schema': sch.closure(tname).to_prophy(), 'type': tname, 'value': C.jsonable(v),
                     'endian': endian, 'bytes': C.hexs(exp), 'decode_returned': n})
+    # the message's OWN encoding (whatever the encoder wrote): a message built through the API - alternately with
+    # every field assigned and with the fewest operations (defaults never touched) - encodes, and that encoding
+    # decodes into a fresh message to the same value and length
+    for sparse in ((False, True) if 'replay' in tags else (acc.p['evaluations'] % 2 == 1,)):
+        try:
+            src = cls()
+            pyrt.build(src, sch, tname, v, sparse=sparse)
+            own = src.encode(endian)
+        except Exception as e:  # noqa
+            if isinstance(e, TypeError) and C.default_reaches_unsized_bytes(sch, tname):
+                acc.count('own_encoding_not_judged_unset_bytes_default_is_str(C01 known finding)')
+            else:
+                acc.count('own_encoding_not_available(build or encode raised: C01/C10 subject)')
+            own = None
+        if own is None:
+            continue
+        if True:
+            acc.count('own_encodings_decoded_sparse' if sparse else 'own_encodings_decoded_dense')
+            try:
+                m3 = cls()
+                n3 = m3.decode(own, endian)
+                back3 = pyrt.read(m3, sch, tname)
+                re3 = m3.encode(endian)
+            except Exception as e:  # noqa
+                acc.violation(PROP, 'own-encoding:decode-raises:%s:%s' % (type(e).__name__, _errclass(e)),
+                              witness(own_encoding=C.hexs(own), sparse_build=sparse, error='%s: %s' % (type(e).__name__, e)))
+                return
+            if n3 != len(own) or back3 != v or re3 != own:
+                acc.violation(PROP, 'own-encoding:%s' % ('decode-consumed-length' if n3 != len(own) else
+                                                         'decode-value-differs' if back3 != v else 'reencode-differs'),
+                              witness(own_encoding=C.hexs(own), sparse_build=sparse, returned=n3,
+                                      read_back=C.jsonable(back3), reencoded=C.hexs(re3)))
+                return
     # observation only: decode into a message that already holds another value
     if prev is not None:
         try:
